@@ -763,4 +763,47 @@ func cmdReplay(args []string) int {
 	return 0
 }
 
-func cmdSelftest(args []string) int { return 0 }
+// cmdSelftest runs the engine's semantics micro-suite (harnesses VerifST_*): every assertion
+// must be proved, and the sampled paths must behave identically natively and in the engine.
+func cmdSelftest(args []string) int {
+	tmp, err := os.MkdirTemp("", "symgo-selftest-")
+	if err != nil {
+		fmt.Fprintln(os.Stderr, err)
+		return 2
+	}
+	defer os.RemoveAll(tmp)
+	vdir := "/verif"
+	if exe, err := os.Executable(); err == nil {
+		vdir = filepath.Dir(filepath.Dir(exe))
+	}
+	// evidence and counterexamples of the self-test go to a scratch directory
+	os.Symlink(filepath.Join(vdir, "known_findings.json"), filepath.Join(tmp, "known_findings.json"))
+	if err := copyTree(filepath.Join(vdir, "harness"), filepath.Join(tmp, "harness")); err != nil {
+		fmt.Fprintln(os.Stderr, "selftest:", err)
+		return 2
+	}
+	rc := cmdCheck(append([]string{"-prop", "ST", "-tier", "quick", "-verif", tmp}, args...))
+	if rc != 0 {
+		fmt.Fprintln(os.Stderr, "selftest FAILED: the engine disagrees with the native semantics of Go")
+		return 2
+	}
+	fmt.Fprintln(os.Stderr, "selftest ok")
+	return 0
+}
+
+func copyTree(src, dst string) error {
+	return filepath.Walk(src, func(p string, info os.FileInfo, err error) error {
+		if err != nil {
+			return err
+		}
+		rel, _ := filepath.Rel(src, p)
+		if info.IsDir() {
+			return os.MkdirAll(filepath.Join(dst, rel), 0o755)
+		}
+		b, err := os.ReadFile(p)
+		if err != nil {
+			return err
+		}
+		return os.WriteFile(filepath.Join(dst, rel), b, 0o644)
+	})
+}
